@@ -138,6 +138,7 @@ let () =
     List.iter (fun key ->
         let (l, n) = Hashtbl.find classes key in
         let arr = Array.of_list (List.rev !l) in
+        let cap = if key.[0] = 'R' then max 5 (cap / 4) else cap in   (* rejected classes only tie the validator model: fewer suffice *)
         let stride = max 1 ((!n + cap - 1) / cap) in
         Array.iteri (fun i (b, vs, as_) ->
             if i mod stride = off mod stride then
